@@ -3,6 +3,7 @@ package bcl
 import (
 	"fmt"
 	"io"
+	"reflect"
 	"strconv"
 	"strings"
 )
@@ -184,6 +185,12 @@ func (vm *vm) run() error {
 				}
 				b, a := pop().(int), pop().(string)
 				push(strings.Repeat(a, b))
+
+			case instr == opEQ && isBlock(peek(1)) && isBlock(peek(0)):
+				// a nested block read through its key; Block holds a map,
+				// so the plain == below would panic
+				b, a := pop(), pop()
+				push(reflect.DeepEqual(a, b))
 
 			case instr == opEQ:
 				b, a := pop(), pop()
